@@ -8,7 +8,7 @@ import time
 
 sys.path.insert(0, os.path.dirname(os.path.abspath(__file__)))
 import vlib
-from engines import hs_server, hs_client, tcp_stream, codec, pending, srvlife
+from engines import hs_server, hs_client, tcp_stream, codec, pending, srvlife, mux
 
 # property -> list of (engine module, operator prefixes that decide it)
 PROPS = {
@@ -25,10 +25,16 @@ PROPS = {
     "C05": [(pending, ["C05_"])],
     "C12": [(tcp_stream.C12, ["C12_"])],
     "C18": [(srvlife, ["C18_"])],
+    "C20": [(mux, ["C20_"])],
     "C16": [(tcp_stream.C16, ["C16_"])],
 }
 
 ASSUME = {
+    "mux": [
+        "TLC enumerates every table of up to 2 (thorough: 3) handlers for one kind over 5 predicate shapes x ok/err, with catch-all handlers for the other kinds, and every inbound sequence of up to 2 (thorough: 3) envelopes over 2 classes and 2 kinds, in both roles",
+        "unbuffered channel streams make the dispatch order equal to the arrival order, so each case is deterministic; a handler error is given 40 ms to finish the session before the client asks itself",
+        "TLC, CommunityModules Json and the Go runtime are trusted",
+    ],
     "server-life": [
         "TLC checks the model exhaustively for 1 listener, 2 connections, queue capacity 1 (thorough: 2 listeners); the schedules replayed on the real Server are drawn from the model by seeded TLC simulation, so the real-code side samples the schedule space",
         "gates sit at verif hooks outside critical sections; which arm a Go select takes when several are ready cannot be forced, so a schedule is followed as far as the real goroutines allow and the verdict comes from the monitor on what really happened",
